@@ -114,6 +114,7 @@ struct FoundFn<'s> {
     block: &'s Block,
     impl_generics: Option<&'s Generics>,
     impl_items: Option<&'s [ImplItem]>,
+    impl_self: Option<&'s Type>,
 }
 
 fn find_fn<'s>(src: &'s Source, self_ty: Option<&str>, trait_spec: Option<&str>, name: &str) -> R<FoundFn<'s>> {
@@ -122,11 +123,11 @@ fn find_fn<'s>(src: &'s Source, self_ty: Option<&str>, trait_spec: Option<&str>,
         match (it, self_ty) {
             (Item::Fn(f), None) => {
                 if f.sig.ident == name && !is_test_cfg(&f.attrs) {
-                    found.push(FoundFn { sig: &f.sig, block: &f.block, impl_generics: None, impl_items: None });
+                    found.push(FoundFn { sig: &f.sig, block: &f.block, impl_generics: None, impl_items: None, impl_self: None });
                 }
             }
             (Item::Impl(im), Some(st)) => {
-                if is_test_cfg(&im.attrs) || type_last_ident(&im.self_ty).as_deref() != Some(st) {
+                if is_test_cfg(&im.attrs) || type_last_ident(&im.self_ty).as_deref() != Some(st.split('<').next().unwrap()) {
                     continue;
                 }
                 let ok = match (&im.trait_, trait_spec) {
@@ -152,7 +153,7 @@ fn find_fn<'s>(src: &'s Source, self_ty: Option<&str>, trait_spec: Option<&str>,
                 for ii in im.items.iter() {
                     if let ImplItem::Fn(f) = ii {
                         if f.sig.ident == name && !is_test_cfg(&f.attrs) {
-                            found.push(FoundFn { sig: &f.sig, block: &f.block, impl_generics: Some(&im.generics), impl_items: Some(&im.items) });
+                            found.push(FoundFn { sig: &f.sig, block: &f.block, impl_generics: Some(&im.generics), impl_items: Some(&im.items), impl_self: Some(&*im.self_ty) });
                         }
                     }
                 }
@@ -215,6 +216,34 @@ impl Driver {
         conv_ty(t, &|n| adts.contains_key(n) || Some(n) == extra_adt || ext.contains_key(n.strip_prefix("extern:").unwrap_or(n)), generics, self_ty)
     }
 
+    /// `MajorMinor<i32>` + `impl<T> MajorMinor<T>` -> {T: i32}
+    fn instance_subst(&self, inst: Option<&str>, impl_self: Option<&Type>) -> R<BTreeMap<String, Ty>> {
+        let mut m = BTreeMap::new();
+        let (inst, impl_self) = match (inst, impl_self) {
+            (Some(i), Some(t)) if i.contains('<') => (i, t),
+            _ => return Ok(m),
+        };
+        let it: Type = syn::parse_str(inst).map_err(|e| format!("instance `{}`: {}", inst, e))?;
+        let args_of = |t: &Type| -> Vec<Type> {
+            if let Type::Path(p) = t {
+                if let PathArguments::AngleBracketed(a) = &p.path.segments.last().unwrap().arguments {
+                    return a.args.iter().filter_map(|g| if let GenericArgument::Type(t) = g { Some(t.clone()) } else { None }).collect();
+                }
+            }
+            vec![]
+        };
+        let ia = args_of(&it);
+        let pa = args_of(impl_self);
+        if ia.len() != pa.len() {
+            return Err(format!("instance `{}` does not fit the impl's self type", inst));
+        }
+        for (i, p) in ia.iter().zip(pa.iter()) {
+            let pn = type_last_ident(p).unwrap_or_default();
+            m.insert(pn, self.conv(i, &BTreeSet::new(), None, None)?);
+        }
+        Ok(m)
+    }
+
     fn generics_of(g: &Generics) -> BTreeSet<String> {
         g.params.iter().filter_map(|p| if let GenericParam::Type(t) = p { Some(t.ident.to_string()) } else { None }).collect()
     }
@@ -222,23 +251,47 @@ impl Driver {
     fn add_struct(&mut self, file: &str, name: &str, map: &[&str], eqb: Option<String>, module: &str) -> R<()> {
         self.load(file)?;
         let src = &self.sources[file];
+        let base = name.split('<').next().unwrap();
         let st = all_items(&src.file.items)
             .into_iter()
-            .find_map(|i| if let Item::Struct(s) = i { if s.ident == name { Some(s) } else { None } } else { None })
-            .ok_or_else(|| format!("struct `{}` not found in {}", name, file))?;
+            .find_map(|i| if let Item::Struct(s) = i { if s.ident == base { Some(s) } else { None } } else { None })
+            .ok_or_else(|| format!("struct `{}` not found in {}", base, file))?;
         let gens = Self::generics_of(&st.generics);
+        // monomorphic instance `Name<T1, ..>`: substitute the struct's type parameters
+        let mut subst: BTreeMap<String, Ty> = BTreeMap::new();
+        if name.contains('<') {
+            let it: Type = syn::parse_str(name).map_err(|e| format!("instance `{}`: {}", name, e))?;
+            let mut args = vec![];
+            if let Type::Path(p) = &it {
+                if let PathArguments::AngleBracketed(a) = &p.path.segments.last().unwrap().arguments {
+                    for g in a.args.iter() {
+                        if let GenericArgument::Type(t) = g {
+                            args.push(self.conv(t, &BTreeSet::new(), None, None)?);
+                        }
+                    }
+                }
+            }
+            let params: Vec<String> = st.generics.params.iter().filter_map(|p| if let GenericParam::Type(t) = p { Some(t.ident.to_string()) } else { None }).collect();
+            if params.len() != args.len() {
+                return Err(format!("instance `{}`: the struct has {} type parameters", name, params.len()));
+            }
+            for (p, a) in params.into_iter().zip(args) {
+                subst.insert(p, a);
+            }
+        }
         let mut fields = vec![];
         for (i, f) in st.fields.iter().enumerate() {
             let fname = f.ident.as_ref().map(|x| x.to_string()).unwrap_or_else(|| i.to_string());
             let ty = match self.conv(&f.ty, &gens, Some(name), Some(name)) {
-                Ok(t) => t,
+                Ok(t) => subst_ty(&t, &subst),
                 Err(e) => Ty::Opaque(e),
             };
             fields.push((fname, ty));
         }
+        let cname = sanitize(name);
         let generated = map.is_empty();
         let (coq_ty, ctor, projs): (String, String, Vec<String>) = if generated {
-            (name.to_string(), format!("Build_{}", name), fields.iter().map(|(f, _)| format!("{}_{}", name, f)).collect())
+            (cname.clone(), format!("Build_{}", cname), fields.iter().map(|(f, _)| format!("{}_{}", cname, f)).collect())
         } else {
             if map.len() != fields.len() + 2 {
                 return Err(format!("struct `{}` has {} fields but the mapping names {} projections (the struct changed?)", name, fields.len(), map.len().saturating_sub(2)));
@@ -327,6 +380,7 @@ impl Driver {
             gens.extend(Self::generics_of(g));
         }
         let st = self_ty.as_deref();
+        let isub = self.instance_subst(st, ff.impl_self)?;
         let mut const_generics = vec![];
         for p in ff.sig.generics.params.iter() {
             if let GenericParam::Const(c) = p {
@@ -382,7 +436,7 @@ impl Driver {
                         _ => return Err(format!("{} `{}`: parameter pattern is not an identifier", file, spec)),
                     };
                     let ty = self.conv(&pt.ty, &gens, st, None).map_err(|e| format!("{} `{}`: parameter `{}`: {}", file, spec, n, e))?;
-                    params.push((n, ty));
+                    params.push((n, subst_ty(&ty, &isub)));
                 }
             }
         }
@@ -406,10 +460,11 @@ impl Driver {
                 }
             }
         };
+        let ret = subst_ty(&ret, &isub);
         let coq = coq_as.unwrap_or_else(|| {
             let mut s = String::from("src_");
             if let Some(t) = &self_ty {
-                s.push_str(t);
+                s.push_str(&sanitize(t));
                 s.push('_');
             }
             s.push_str(&name);
@@ -465,7 +520,7 @@ impl Driver {
         }
         let (ty, ex, l1, l2) = found[0];
         let ty = self.conv(ty, &BTreeSet::new(), st.as_deref(), None)?;
-        let mut tr = Tr { t: &self.tables, self_ty: st.clone(), ret_ty: ty.clone(), mut_self: false, counter: BTreeMap::new(), mut_methods: BTreeSet::new(), generic_tys: BTreeSet::new() };
+        let mut tr = Tr { t: &self.tables, self_ty: st.clone(), ret_ty: ty.clone(), mut_self: false, counter: BTreeMap::new(), mut_methods: BTreeSet::new(), generic_tys: BTreeSet::new(), subst: BTreeMap::new() };
         let v = tr.pure(ex, &Env::default(), Some(&ty)).map_err(|e| format!("{} const `{}`: {}", file, spec, e))?;
         join(&v.ty, &ty).map_err(|e| format!("{} const `{}`: {}", file, spec, e))?;
         let coq = format!("src_{}", spec.replace("::", "_"));
@@ -496,6 +551,7 @@ impl Driver {
             counter: BTreeMap::new(),
             mut_methods,
             generic_tys: gens,
+            subst: self.instance_subst(job.self_ty.as_deref(), ff.impl_self)?,
         };
         let mut env = Env::default();
         let mut binders = String::new();
